@@ -202,7 +202,7 @@ def _view(a):
     return v
 
 
-def fit(name, data, init=None, num_classes=None, iterations=3, trainer=None, **opts):
+def fit(name, data, init=None, num_classes=None, iterations=3, trainer=None, container=None, **opts):
     """run <Trainer>.fit and record, for every iteration, the arguments and the result of _m_step.
     Returns (model, trace); trace[i] = dict(affiliation=, quadratic_form=, model=)."""
     T = trainer if trainer is not None else trainer_cls(name)()
@@ -210,24 +210,16 @@ def fit(name, data, init=None, num_classes=None, iterations=3, trainer=None, **o
     # (a) the trainer object has been used before and the caller's data / start buffers were refilled in place since,
     # (b) data arrive as non-contiguous views with the same values.  Either way the fit is the same function of the values.
     mode = container_mode(data, init) if (CONTAINER_STRATA and trainer is None and isinstance(init, np.ndarray)) else 0
+    if container is not None and trainer is None and isinstance(init, np.ndarray):
+        mode = int(container)          # chosen by the caller's own stratification
     if mode == 1:
         bufs = {k: _other(v) for k, v in data.items()}
         ibuf = _other(init)
+        # first of all a recording with another number of channels / features (not for the trainers that pin their dimension
+        # at first use and refuse every other one afterwards: their histories are covered by C02 / C20)
         try:
-            IN_WARMUP[0] = True
-            kw0 = dict(opts)
-            kw0['initialization'] = ibuf
-            if name in INTEGRATION:
-                T.fit(bufs['observation'], bufs['embedding'], iterations=min(2, iterations), **kw0)
-            else:
-                T.fit(bufs['y'], iterations=min(2, iterations), **kw0)
-        except Exception:
-            pass
-        finally:
-            IN_WARMUP[0] = False
-        # ... and before that on a recording with another number of channels / features (whether the trainer refuses it
-        # with an explicit exception or not, it must not influence the fit that follows)
-        try:
+            if name in ('cwmm', 'cbmm'):
+                raise RuntimeError('skip')
             IN_WARMUP[0] = True
             wide = {k: np.concatenate([v, v[..., :1]], axis=-1) for k, v in bufs.items()}
             kw0 = dict(opts)
@@ -236,6 +228,18 @@ def fit(name, data, init=None, num_classes=None, iterations=3, trainer=None, **o
                 T.fit(wide['observation'], wide['embedding'], iterations=1, **kw0)
             else:
                 T.fit(wide['y'], iterations=1, **kw0)
+        except Exception:
+            pass
+        finally:
+            IN_WARMUP[0] = False
+        try:
+            IN_WARMUP[0] = True
+            kw0 = dict(opts)
+            kw0['initialization'] = ibuf
+            if name in INTEGRATION:
+                T.fit(bufs['observation'], bufs['embedding'], iterations=min(2, iterations), **kw0)
+            else:
+                T.fit(bufs['y'], iterations=min(2, iterations), **kw0)
         except Exception:
             pass
         finally:
